@@ -32,12 +32,12 @@ Definition subtypep_t (t : ctable) (a b : string) : bool :=
 
 (* type designators of subtypep: a symbol or a two-element list (vector fixnum) *)
 Inductive tdes := DSym (s : string) | DList (s e : string).
-Inductive sres := SBool (b : bool) | SFault.
+Inductive sres := SBool (b : bool).
 Definition des_pt (t : ctable) (d : tdes) := match d with DSym s | DList s _ => find_class t s end.
 Definition des_et (t : ctable) (d : tdes) := match d with DSym _ => None | DList _ e => find_class t e end.
 Definition cls_sub (a b : string * list string) : bool := String.eqb (fst a) (fst b) || mem (fst b) (snd a).
-(* (pt1 == pt2 || pt1.Inherits(pt2)) && (et2 == nil || et1 == et2 || et1.Inherits(et2)); Go evaluates left
-   to right with short circuits, and et1.Inherits on a nil et1 is a nil dereference *)
+(* (pt1 == pt2 || pt1.Inherits(pt2)) && (et2 == nil || et1 == et2 || (et1 != nil && et1.Inherits(et2)))
+   (with the repair C16-3: before it, a nil et1 was dereferenced) *)
 Definition subtypep_d (t : ctable) (d1 d2 : tdes) : sres :=
   match des_pt t d1, des_pt t d2 with
   | Some p1, Some p2 =>
@@ -46,7 +46,7 @@ Definition subtypep_d (t : ctable) (d1 d2 : tdes) : sres :=
         | None => SBool true
         | Some e2 => match des_et t d1 with
                      | Some e1 => SBool (cls_sub e1 e2)
-                     | None => SFault
+                     | None => SBool false
                      end
         end
       else SBool false
